@@ -9,7 +9,7 @@ from types import MethodType
 import numpy as np
 
 from .helper import create_build_finer_grid_fun
-from ..markovchain.markovchain import MarkovChainProcess
+from ..markovchain.markovchain import MarkovChainProcess, cumulate_slices
 from ...distribution.sampling import SamplingMethod
 from ...distribution.univariate.uniform import Uniform
 from ...grid.spatial import CTMCGrid
@@ -256,7 +256,8 @@ class CouplingSimulationFixedTimes(CouplingSimulation):
                 fines_states_values[k] = slice_fine_values[-1]
                 coarse_states_values[k] = slice_coarse_values[-1]
 
-        return fines_states_values, coarse_states_values
+        # running sums over the product dates (each slice is cumulated from 0)
+        return np.cumsum(fines_states_values), np.cumsum(coarse_states_values)
 
     def simulate_one_path_with_coupling(self):
         # simulate the jump part first
@@ -309,7 +310,7 @@ class CouplingSimulationWithJumpTimes(CouplingSimulation):
         fine_states_all_values = fine_mc.values
         jump_times = fine_mc.times
 
-        coarse_states_all_values = np.empty_like(fine_states_all_values)
+        coarse_states_all_values = [np.zeros(shape=0) for _ in fine_states_all_values]
 
         for k, (slice_fine_states, slice_fine_values) in enumerate(
             zip(fine_states_increments, fine_states_all_values)
@@ -320,8 +321,15 @@ class CouplingSimulationWithJumpTimes(CouplingSimulation):
                 )
                 coarse_states_all_values[k] = slice_coarse_values
 
-        fine_values = np.concatenate(fine_states_all_values).ravel().astype(float)
-        coarse_values = np.concatenate(coarse_states_all_values).ravel().astype(float)
+        # running sums over the product dates (each slice is cumulated from 0)
+        fine_values = (
+            np.concatenate(cumulate_slices(fine_states_all_values)).ravel().astype(float)
+        )
+        coarse_values = (
+            np.concatenate(cumulate_slices(coarse_states_all_values))
+            .ravel()
+            .astype(float)
+        )
 
         return jump_times, fine_values, coarse_values
 
